@@ -214,7 +214,7 @@ def _call_effects(ctx, f, call):
     return out
 
 
-def engine_typestate(ctx: Ctx, f, rule="R05.4", between_generations: bool = True):
+def engine_typestate(ctx: Ctx, f, rule="R05.4", between_generations: bool = True, exit_dirty: bool = True):
     """CLEAN -EVAL-> DIRTY -GSC false-> CLEAN; DIRTY -EVAL-> X; GSC true -> STOPPING; STOPPING -EVAL-> X;
     STOPPING at exit requires a preceding `_active = False`."""
     cfg = ctx.cfg(f)
@@ -289,29 +289,67 @@ def engine_typestate(ctx: Ctx, f, rule="R05.4", between_generations: bool = True
         n = unknown[0]
         return [ctx.ob(rule, f, n.stmt, status=INCONCLUSIVE, detail="GSC consulted inside a compound expression; outcome cannot be attributed", construct=n.label)], eval_nodes
     seen_msgs = set()
+    def is_consult(x):
+        return (x.kind == "cond" and cond_consult(ctx, f, x, "gsc") != 0) or stores_flag(x)
+
+    def consult_before_eval(start):
+        """Is a GSC consult reachable from `start` without passing an evaluation site?"""
+        seen, todo = set(), [start]
+        while todo:
+            x = todo.pop()
+            if x.id in seen or x in eval_nodes:
+                continue
+            seen.add(x.id)
+            if is_consult(x):
+                return True
+            todo.extend(m for m, _ in x.succ)
+        return False
+
+    def conditionally_skipped(n, s):
+        """On the witness path between the previous evaluation site and n, some branch (not itself a consult) leads to a GSC
+        consult on its other arm: the consult exists but is skipped under a condition the analyser does not evaluate."""
+        cur = parent.get((n.id, s))
+        prev_id = n.id
+        guard = 0
+        while cur is not None and guard < 300:
+            guard += 1
+            x = cfg.nodes[cur[0]]
+            if x in eval_nodes:
+                return False
+            if x.kind in ("cond", "loophead", "forhead") and not is_consult(x):
+                for m, _lab in x.succ:
+                    if m.id != prev_id and consult_before_eval(m):
+                        return True
+            prev_id = x.id
+            cur = parent.get(cur)
+        return False
+
     for n, s, msg in viol:
         k = (n.id, msg)
         if k in seen_msgs:
             continue
         seen_msgs.add(k)
-        obs.append(ctx.ob(rule, f, n.stmt, status=VIOLATION, detail=msg, witness=witness_path(cfg, parent, n.id, s), construct=n.label))
+        status = VIOLATION
+        if msg.startswith("two evaluation sites") and conditionally_skipped(n, s):
+            status, msg = INCONCLUSIVE, "a GSC consult between two evaluation sites is skipped under a condition the analyser cannot evaluate"
+        obs.append(ctx.ob(rule, f, n.stmt, status=status, detail=msg, witness=witness_path(cfg, parent, n.id, s), construct=n.label))
     for s in exits:
         if s[0] == "STOPPING" and not s[1]:
             obs.append(ctx.ob(rule, f, f.node, status=VIOLATION, detail="a path on which the GSC was observed true leaves run_metaepoch without `_active = False`", witness=witness_path(cfg, parent, cfg.exit.id, s), construct="exit-after-gsc-true"))
-        if s[0] in ("DIRTY", "FLAGGED") and not s[1]:
+        if exit_dirty and s[0] in ("DIRTY", "FLAGGED") and not s[1]:
             # one-shot engines deactivate unconditionally; every other engine consults the GSC after its last evaluation
             obs.append(ctx.ob(rule, f, f.node, status=VIOLATION, detail="a path leaves run_metaepoch after an evaluation without consulting the GSC and without deactivating the deme (the deme would never observe the stop condition)", witness=witness_path(cfg, parent, cfg.exit.id, s), construct="exit-dirty"))
     return obs, eval_nodes
 
 
-def r05_4(ctx: Ctx, between_generations: bool = True):
+def r05_4(ctx: Ctx, between_generations: bool = True, exit_dirty: bool = False):
     """R05.4 engine typestate on every concrete deme's run_metaepoch (evaluation / GSC consult alternation, stop on outcome true)."""
     obs = []
     for ci in ctx.concrete_demes():
         f = ctx.prog.lookup_method(ci, "run_metaepoch")
         if f is None or f.is_abstract:
             raise AnalysisError(f"{ci.name} has no run_metaepoch")
-        o, eval_nodes = engine_typestate(ctx, f, between_generations=between_generations)
+        o, eval_nodes = engine_typestate(ctx, f, between_generations=between_generations, exit_dirty=exit_dirty)
         ctx.count("engine_eval_sites", len(eval_nodes))
         if not eval_nodes:
             obs.append(ctx.ob("R05.4", f, f.node, status=INCONCLUSIVE, detail=f"{ci.name}.run_metaepoch has no statement with an evaluation effect (engine step not resolved)", construct="no-eval"))
